@@ -48,6 +48,8 @@ var menu = []menuPos{
 	// 10: a capture that forces mate in three plies (Rxb3, Kh8, Rh3#) is ordered before the quiet mate in one (Rh3#):
 	// few moves per node, so depth 3 is within reach (the shape seeded change C03_B needs)
 	{name: "long-mate-first", turn: board.White, pieces: []board.Placement{pl(board.F7, board.White, board.King), pl(board.G5, board.White, board.Pawn), pl(board.C3, board.White, board.Rook), pl(board.B2, board.White, board.Pawn), pl(board.H7, board.Black, board.King), pl(board.B3, board.Black, board.Pawn)}},
+	// 11: tree 10 with the rook's file closed (c4/c5 pawns): fewer root moves, so depth 4 fits the quick tier
+	{name: "long-mate-first-small", turn: board.White, pieces: []board.Placement{pl(board.F7, board.White, board.King), pl(board.G5, board.White, board.Pawn), pl(board.C3, board.White, board.Rook), pl(board.B2, board.White, board.Pawn), pl(board.C4, board.White, board.Pawn), pl(board.H7, board.Black, board.King), pl(board.B3, board.Black, board.Pawn), pl(board.C5, board.Black, board.Pawn)}},
 }
 
 // harnessZobrist: a fixed table of distinct words (splitmix64); only hash equality matters.
@@ -302,6 +304,7 @@ func Harness_C03_T9_D4() { harnessAlphaBeta(9, 4, 1) }
 func Harness_C03_T10_D2() { harnessAlphaBeta(10, 2, 1) }
 func Harness_C03_T10_D3() { harnessAlphaBeta(10, 3, 1) }
 func Harness_C03_T10_D4() { harnessAlphaBeta(10, 4, 1) }
+func Harness_C03_T11_D4() { harnessAlphaBeta(11, 4, 1) }
 
 // leafCount: two free leaf values in both tiers (three were used by the thorough tier, whose
 // run on the final tree did not finish within 50 minutes; nothing is claimed for it)
